@@ -189,6 +189,25 @@ def iso_cases(defs, cases):
     return n
 
 
+def molo_cases(res, cases):
+    """last clause of C07: molodensky against the Helmert path it approximates (spec/MC_C07_molo.tla)"""
+    r = vlib.tlc_must_pass(vlib.tlc("MC_C07_molo", "MC_C07_molo", workers=2, timeout=600))
+    vlib.require_coverage(r, ["PickCfg", "PickPt"])
+    res.add_tlc(r)
+    recs = r["records"].get("MOLO", [])
+    if len(recs) < 10:
+        raise vlib.ToolError("MC_C07_molo exported %d configurations" % len(recs))
+    n = 0
+    for x in recs:
+        data = [[math.radians(p[0]), math.radians(p[1]), float(p[2]), 0.0] for p in x["pts"]]
+        cases.append({"id": len(cases), "k": "rel", "tag": "molodensky-" + x["form"], "a": {"def": x["a"], "dir": "F"}, "b": {"def": x["b"], "dir": "F"},
+                      "data": data, "cmp": {"modes": ["lin", "lin", "lin", "bits"], "tol": x["class_mm"] / 1000.0, "ulps": 0}})
+        n += len(data)
+    res.assumption_evaluations += n
+    res.extra["molodensky_route_obligations"] = n
+    return len(recs)
+
+
 def run_rel(tag, cases, timeout=1700):
     inp = os.path.join(vlib.WORK, "beh", tag + ".rel.ndjson")
     outp = os.path.join(vlib.WORK, "beh", tag + ".rel.out.ndjson")
@@ -225,6 +244,7 @@ def run(tier, seed):
     if niso == 0:
         raise vlib.ToolError("vacuous: no exact-mode core with rotations")
     nontrivial += niso
+    nontrivial += molo_cases(res, cases)
     summary, mism = scriptlib.replay_scripts(PROP, beh)
     rsum, rfails = run_rel(PROP, cases)
     res.behaviours_replayed = (summary["behaviours"] - len(mism)) + (rsum["cases"] - rsum["mismatching"])
@@ -256,7 +276,7 @@ def run(tier, seed):
     res.assumptions = [
         "exact mode: the images of an orthogonal frame of 1000 km arms are orthogonal, of equal length (1 + ppm(t) 1e-6) L and right-handed to 1e-12 relative (the trigonometry itself is not computed by the specification)",
         "small-angle mode: inverse after forward leaves at most 1.001 |r(t)|^2 |x| + 1e-8 m (r(t) from the specification)",
-        "not claimed, not compared: Molodensky against the Helmert path (its published accuracy is not stated in the documentation)",
+        "molodensky against cart | helmert | (cart): the documentation publishes no accuracy figure; classes measured once on the repaired tree over the catalogue of spec/MC_C07_molo.tla (datum changes up to 250 m per axis, |lat| <= 70, heights -100 .. 8848 m; worst 26 mm full / 0.70 m abridged) and doubled: 50 mm and 1.4 m per axis in space",
         "a dynamic definition without t_epoch: the documentation does not say it must be refused; only 'no panic' is required",
         "both spellings of one parameter group in one definition (x=.. together with translation=..) are not generated: precedence is undocumented",
         "unknown convention names are not generated; a convention given without rotations must be accepted and be inert (position_vector only)",
